@@ -93,7 +93,18 @@ def fixedGraphs : List Graph := [
   ⟨[node 0 ["NodeKind1"] [("name", .str "x")], node 1 ["NodeKind2"] [("name", .str "xy"), ("a", jInt 0)], node 2 ["NodeKind2", "NodeKind1"] [("a", jInt 3), ("b", jInt 2), ("f", .bool false)]],
    [edge 0 0 1 "EdgeKind1" [("w", jInt 0)], edge 1 1 2 "EdgeKind2" [("w", jInt 2)], edge 2 2 0 "EdgeKind1", edge 3 0 2 "EdgeKind2" [("name", .str "x")]]⟩,
   ⟨[node 0 [] [("name", .str "y"), ("a", .bool true)], node 1 [] [("name", .str ""), ("a", jInt 2)], node 2 ["NodeKind1"] [("a", jInt 1), ("tags", .arr [])], node 3 ["NodeKind2"] [("name", .str "1"), ("b", jInt 3)]],
-   [edge 0 0 1 "EdgeKind1", edge 1 1 2 "EdgeKind1" [("w", jInt 1)], edge 2 2 3 "EdgeKind1", edge 3 3 0 "EdgeKind2", edge 4 1 1 "EdgeKind2"]⟩
+   [edge 0 0 1 "EdgeKind1", edge 1 1 2 "EdgeKind1" [("w", jInt 1)], edge 2 2 3 "EdgeKind1", edge 3 3 0 "EdgeKind2", edge 4 1 1 "EdgeKind2"]⟩,
+  -- typed chain NodeKind1 → · → NodeKind2 → NodeKind1 (variable-length step followed by two fixed hops of different kinds)
+  ⟨[node 0 ["NodeKind1"] [("name", .str "x"), ("a", jInt 1)], node 1 [] [("name", .str "y")], node 2 ["NodeKind2"] [("name", .str "x"), ("a", jInt 2)],
+    node 3 ["NodeKind1"] [("name", .str "y"), ("a", jInt 3)]],
+   [edge 0 0 1 "EdgeKind1", edge 1 1 2 "EdgeKind1", edge 2 2 3 "EdgeKind2"]⟩,
+  -- the same closed into a cycle, plus a second branch out of the middle node
+  ⟨[node 0 ["NodeKind1"] [("name", .str "x")], node 1 [] [], node 2 ["NodeKind2"] [("name", .str "x")], node 3 ["NodeKind1", "NodeKind2"] [("name", .str "y")]],
+   [edge 0 0 1 "EdgeKind1", edge 1 1 2 "EdgeKind1", edge 2 2 0 "EdgeKind2", edge 3 1 3 "EdgeKind2", edge 4 2 3 "EdgeKind2"]⟩,
+  -- a fan: one source with three targets (aggregates over several rows), sources that also satisfy the target's kind
+  ⟨[node 0 ["NodeKind1"] [("name", .str "x"), ("a", jInt 1)], node 1 ["NodeKind2"] [("name", .str "y"), ("a", jInt 2)],
+    node 2 ["NodeKind1", "NodeKind2"] [("name", .str "x"), ("a", jInt 3)], node 3 [] [("a", jInt 4)]],
+   [edge 0 0 1 "EdgeKind1", edge 1 0 2 "EdgeKind1", edge 2 0 3 "EdgeKind1", edge 3 2 1 "EdgeKind1"]⟩
 ]
 
 /-- node templates of the exhaustive family: distinct kinds and property shapes (string / number / missing / mixed) -/
